@@ -24,4 +24,7 @@ theorem obj31 : GenV31.obj_fields = ["u0:uint8", "u1:uint8", "u2:uint8", "u3:uin
 theorem effects31 : GenV31.obj_ptr_effects = ["Set:writes"] := by decide
 /-- `sync.Pool`s of the package: none -/
 theorem pool31 : GenV31.pool_new = [] ∧ GenV31.pool_uses = [] := by decide
+/-- the package imports exactly these standard packages (no `os`, `time`, `runtime`, `reflect`, `C`, no module-internal package:
+    nothing through which the environment, the clock, the scheduler or foreign code could reach the translated functions) -/
+theorem imports31 : GenV31.pkg_imports = ["errors", "fmt", "math", "strings", "unsafe"] := by decide
 end StateTie
